@@ -16,7 +16,7 @@ type ParScenario struct {
 
 func runPar(ps ParScenario) string {
 	return vk.Par(len(ps.Parts), func(i int) string {
-		for rep := 0; rep < 20; rep++ {
+		for rep := 0; rep < 5; rep++ {
 			if m := Run(ps.Parts[i]); m != "" {
 				return m
 			}
